@@ -7,6 +7,7 @@ import argparse
 import concurrent.futures as cf
 import json
 import multiprocessing as mp
+import multiprocessing.connection
 import os
 import sys
 import time
@@ -38,9 +39,99 @@ def run_bounded(prop, tier, seed, only=None):
         return []
     from .registry import BOUNDED_BUDGET
     budget = BOUNDED_BUDGET.get(prop, {}).get(tier, 40 if tier == "quick" else 600)
+    return _run_isolated(prop, clauses, tier, seed, budget)
+
+
+def _bounded_child(args, conn, progress_path):
+    name, tier, seed, budget = args
+    from .bounded import common
+    fd = os.open(progress_path, os.O_WRONLY | os.O_CREAT, 0o600)
+    try:
+        res = common.run_clause(name, tier, seed, budget, progress_fd=fd)
+    except Exception:
+        res = {"clause": name, "fatal": traceback.format_exc()}
+    try:
+        conn.send(res)
+    finally:
+        conn.close()
+        os.close(fd)
+
+
+def _last_case(progress_path):
+    try:
+        with open(progress_path, "rb") as f:
+            head = f.readline()
+            n = int(head.strip() or 0)
+            return f.read(n).decode("utf-8", "replace")
+    except Exception:
+        return None
+
+
+def _run_isolated(prop, clauses, tier, seed, budget, width=14):
+    """one process per clause; a process that dies (native code crashed) is reported as a failure of the case it was
+    evaluating, not as a crash of the checker"""
+    import shutil
+    import signal
+    import tempfile
     ctx = mp.get_context("fork")
-    with cf.ProcessPoolExecutor(max_workers=min(14, len(clauses)), mp_context=ctx) as ex:
-        return list(ex.map(_bounded_worker, [(c, tier, seed, budget) for c in clauses]))
+    tmpd = tempfile.mkdtemp(prefix="vf_bounded_")
+    results = {}
+    pending = list(enumerate(clauses))
+    running = {}
+    try:
+        while pending or running:
+            while pending and len(running) < width:
+                i, c = pending.pop(0)
+                pr, pw = ctx.Pipe(duplex=False)
+                path = os.path.join(tmpd, "p%d" % i)
+                p = ctx.Process(target=_bounded_child, args=((c, tier, seed, budget), pw, path))
+                p.start()
+                pw.close()
+                running[i] = (p, pr, path, c)
+            ready = mp.connection.wait([v[1] for v in running.values()] + [v[0].sentinel for v in running.values()],
+                                       timeout=1.0)
+            for i in list(running):
+                p, pr, path, c = running[i]
+                got = None
+                if pr.poll():
+                    try:
+                        got = pr.recv()
+                    except EOFError:
+                        got = None
+                    if got is not None:
+                        p.join()
+                        results[i] = got
+                        del running[i]
+                        continue
+                if not p.is_alive():
+                    p.join()
+                    if pr.poll():
+                        try:
+                            results[i] = pr.recv()
+                            del running[i]
+                            continue
+                        except EOFError:
+                            pass
+                    code = p.exitcode
+                    why = ("signal %s" % signal.Signals(-code).name) if code is not None and code < 0 else "exit code %r" % code
+                    case = _last_case(path)
+                    if case is None:
+                        results[i] = {"clause": c, "fatal": "the clause process died (%s) before its first case" % why}
+                    else:
+                        results[i] = {"clause": c, "property": prop, "evaluations": 1, "skipped": 0, "distinct": 1,
+                                      "distinct_nontrivial": 1, "errors": [], "samples": [], "exhausted_generator": False,
+                                      "wall_s": 0, "doc": "",
+                                      "fails": [{"clause": c, "property": prop, "case": case,
+                                                 "msg": "the process running the library died (%s) while evaluating this "
+                                                        "case; the remaining cases of the clause were not run" % why,
+                                                 "key": "process-died", "observed": why,
+                                                 "required": "the call returns or raises a Python exception"}]}
+                    del running[i]
+    finally:
+        for p, pr, path, c in running.values():
+            p.kill()
+        shutil.rmtree(tmpd, ignore_errors=True)
+    return [results[i] for i in range(len(clauses))]
 
 
 def write_replay(prop, idx, payload):
@@ -52,13 +143,36 @@ def write_replay(prop, idx, payload):
     return p
 
 
+def _replay_child(clause, case, conn):
+    from .bounded import common
+    status, res = common.replay_case(clause, case)
+    conn.send((status, getattr(res, "msg", res)))
+    conn.close()
+
+
+def _replay_isolated(clause, case):
+    """the case is replayed in a child process: native code that crashes must not take the reporter down"""
+    ctx = mp.get_context("fork")
+    pr, pw = ctx.Pipe(duplex=False)
+    p = ctx.Process(target=_replay_child, args=(clause, case, pw))
+    p.start()
+    pw.close()
+    try:
+        out = pr.recv()
+    except EOFError:
+        out = None
+    p.join()
+    if out is None:
+        return "fail", "the process running the library died (exit code %r) while evaluating this case" % p.exitcode
+    return out
+
+
 def do_replay(path):
     payload = json.load(open(path))
     print("replaying", path)
     print(" property:", payload.get("property"), " kind:", payload.get("kind"))
     if payload.get("kind") == "bounded" or payload.get("clause"):
-        from .bounded import common
-        status, res = common.replay_case(payload["clause"], payload["case"])
+        status, res = _replay_isolated(payload["clause"], payload["case"])
         print(" clause:", payload["clause"])
         print(" case:", payload["case"])
         print(" result on current tree:", status, getattr(res, "msg", res))
